@@ -38,10 +38,16 @@ fn hostile_bytes(i: usize) -> Vec<u8> {
     match i {
         16 => "x".repeat(2048).into_bytes(),
         17 => vec![0xFF, 0xFE, 0x80, 0xC0],
+        18 => "[".repeat(300).into_bytes(),
+        // multi-byte punctuation / symbols outside any string literal (structured references,
+        // NBSP, multiplication sign) followed by something that looks like a cell
+        19 => "SUM(T[a \u{20ac}])+A1\u{d7}B2\u{a0}+\u{1f600}C3".as_bytes().to_vec(),
+        20 => b"&#x110000;&bogus;&#xD800;&".to_vec(),
+        21 => b"1E400".to_vec(),
         _ => HOSTILE_VALUES[i].as_bytes().to_vec(),
     }
 }
-const N_HOSTILE: usize = 18;
+const N_HOSTILE: usize = 22;
 /// values that address far cells / huge counts: they make the dense `Range` of a sheet huge (a
 /// known finding); on most bases they are left out so that the run is not dominated by aborts
 const FAR_VALUES: [usize; 5] = [3, 10, 11, 12, 13];
@@ -52,6 +58,10 @@ fn hostile_name(i: usize) -> String {
         14 => "nul".into(),
         16 => "2KB".into(),
         17 => "invalid_utf8".into(),
+        18 => "brackets300".into(),
+        19 => "multibyte_punct".into(),
+        20 => "bad_entity".into(),
+        21 => "1E400".into(),
         _ => HOSTILE_VALUES[i].into(),
     }
 }
@@ -143,6 +153,10 @@ pub fn scan_xml(x: &[u8]) -> Vec<XmlItem> {
         i = end;
     }
     out
+}
+
+fn read_u16_at(c: &[u8], at: usize) -> u16 {
+    u16::from_le_bytes([c[at], c[at + 1]])
 }
 
 fn splice(x: &[u8], r: &std::ops::Range<usize>, with: &[u8]) -> Vec<u8> {
@@ -489,6 +503,29 @@ pub fn cfb_atoms(c: &[u8], per_key: usize, emit: &mut dyn FnMut(String, String, 
             }
             if let Some(n) = set32(at, v) {
                 emit(format!("cfb:header:{}={}", name, nm), String::new(), n);
+            }
+        }
+    }
+    // double fault: a DIFAT chain that loops (an appended sector whose "next DIFAT sector" entry
+    // is itself, or sector 0 rewritten that way) combined with every declared DIFAT-sector count
+    if c.len() >= 1024 && read_u16_at(c, 30) == 9 {
+        let appended = ((c.len() - 512) / 512) as u32;
+        for (which, sid) in [("appended", appended), ("sector0", 0u32)] {
+            for (nm, declared) in [("asis", None), ("0", Some(0u32)), ("1", Some(1)), ("7fffffff", Some(0x7FFF_FFFF)), ("ffffffff", Some(0xFFFF_FFFF))] {
+                let mut n = c.to_vec();
+                n.resize(512 + (appended as usize) * 512, 0);
+                let at = 512 + sid as usize * 512;
+                if sid == appended {
+                    n.extend_from_slice(&[0xFF; 512]);
+                } else {
+                    n[at..at + 512].fill(0xFF);
+                }
+                n[at + 508..at + 512].copy_from_slice(&sid.to_le_bytes());
+                n[68..72].copy_from_slice(&sid.to_le_bytes());
+                if let Some(d) = declared {
+                    n[72..76].copy_from_slice(&d.to_le_bytes());
+                }
+                emit(format!("cfb:difat_cycle:{}:declared={}", which, nm), String::new(), n);
             }
         }
     }
